@@ -181,7 +181,7 @@ func absDoc(doc *did.Doc) *DocAbs {
 		parts = append(parts, fmt.Sprintf("vm|%x", doc.VerificationMethod[i].Value))
 	}
 
-	parts = append(parts, "ep|"+d.EP, "rk|"+strings.Join(d.Keys, ","))
+	parts = append(parts, "ep|"+d.EP, "rk|"+strings.Join(d.Keys, ","), "route|"+strings.Join(docRes(doc).Routing, ","))
 
 	sort.Strings(parts)
 	sum := sha256.Sum256([]byte(doc.ID + "\n" + strings.Join(parts, "\n")))
